@@ -219,6 +219,13 @@ class Problem:
     def valid(self, r):
         return self.in_bounds(r) and not self.collides(r)
 
+    def user_valid(self, r):
+        """what the USER's validity checker answers: with `boundsblind 1` it does collision checking only, so a state
+        outside the bounds is not 'invalid space' (the bounds are their own clause)"""
+        if self.blind:
+            return not self.collides(r)
+        return self.valid(r)
+
     def blocked(self, a, b):
         """the one-way rule of the harness's OneWayValidator: a motion a -> b in -x direction that touches the box"""
         if self.oneway is None or not (b[0] < a[0]):
@@ -532,6 +539,53 @@ def gen_resume(r, kind, variant):
 RESUME_VARIANTS = ["sealed", "opened", "exact", "short", "cleared"]
 
 
+def gen_boundsblind(r, kind, outside_goal=False):
+    """the user's validity checker does collision checking only (`boundsblind 1`; allowed by the StateValidityChecker
+    documentation when interpolation cannot leave the bounds): keeping path states inside the bounds is then entirely the
+    planner's and the samplers' business.  Unit box, 0-2 small boxes, start near the centre, goal in a corner, range
+    comparable to the size of the space (steps that overshoot a sampled state leave the box unless clamped)."""
+    d = 3 if kind == "rv3" else 2
+    k = "se2" if kind == "se2" else "rv"
+    lo, hi = [0.0] * d, [1.0] * d
+    boxes = []
+    for _ in range(r.below(3)):
+        c = [r.uniform(0.2, 0.8) for _ in range(d)]
+        h = [r.uniform(0.03, 0.08) for _ in range(d)]
+        boxes.append(([c[i] - h[i] for i in range(d)], [c[i] + h[i] for i in range(d)]))
+    p = Problem(k, lo, hi, d, boxes, r.choice([0.01, 0.02]), [], [], 0.0, "RRT", 0, 0, 0, blind=1)
+    tail = rand_state(r, k, lo, hi)[d:]
+
+    def free(x):
+        if p.collides(x):
+            p.boxes = []
+        return x
+    p.starts = [free([r.uniform(0.4, 0.6) for _ in range(d)] + tail)]
+    corner = [r.choice([0.0, 1.0]) for _ in range(d)]
+    off = r.uniform(0.03, 0.08)
+    p.goal = free([c + off if c == 0.0 else c - off for c in corner] + tail)
+    if outside_goal:
+        # a second goal state OUTSIDE the bounds: PlannerInputStates::nextGoal filters it, a direct sampleGoal does not
+        g2 = list(p.goal)
+        g2[0] = 1.0 + r.uniform(0.05, 0.3)
+        p.goals2 = [g2]
+        if r.below(2):
+            p.goal, p.goals2 = g2, [p.goal]
+    p.thr = r.choice([0.03, 0.05])
+    p.rng = r.choice([0.5, 1.0, 1.0, 2.0])
+    p.tag = "bounds-blind" + (":outside-goal" if outside_goal else "")
+    return p
+
+
+# planners whose solve() calls goal->sampleGoal() DIRECTLY (goal biasing), i.e. not through PlannerInputStates::nextGoal and
+# its satisfiesBounds / isValid filter (grep "sampleGoal(" under src/ompl/geometric/planners): with a goal state outside
+# the bounds and a collision-only validity checker they grow the tree out of the box (known finding F310)
+DIRECT_GOAL_SAMPLERS = {"RRT", "RRTstar", "InformedRRTstar", "SORRTstar", "RRTsharp", "RRTXstatic", "LazyRRT", "TRRT", "LBTRRT",
+                        "LazyLBTRRT", "RLRT", "EST", "ProjEST", "KPIECE1", "PDST", "STRIDE", "SST", "pRRT"}
+# bounds-blind runs per planner in the quick tier; SST takes Monte-Carlo steps of random length along a sampled direction
+# (interpolation parameter step / d > 1 extrapolates), so it gets more of the large-range / corner-goal configurations
+BLIND_RUNS = {"SST": 12}
+
+
 THREE_ARG = {"KPIECE1", "BKPIECE1", "LBKPIECE1", "PDST", "RLRT", "BiRLRT", "STRIDE"}
 # evaluation budgets of the short-motion class (tiny range => many nodes; these planners get slow with many nodes)
 SHORT_BUDGET = {"LBTRRT": 4000, "LazyPRM": 8000, "LazyPRMstar": 8000, "LazyLBTRRT": 8000}
@@ -665,9 +719,20 @@ def kv(tokens):
 def parse_run(lines):
     R = {"sols": [], "starts": [], "draws": [], "L": [], "queries_log": [], "done": False}
     for ln in lines:
+        try:
+            parse_line(R, ln)
+        except (KeyError, ValueError, IndexError):
+            # a line cut short because the process was killed (watchdog) or died while printing: the run has no `done`
+            # line / a non-zero exit code and is judged as a hang or crash
+            R["truncated"] = True
+    return R
+
+
+def parse_line(R, ln):
+    if True:
         t = ln.split()
         if not t:
-            continue
+            return
         k = t[0]
         if k == "cfg":
             d = kv(t[1:])
@@ -687,7 +752,7 @@ def parse_run(lines):
         elif k == "sol":
             if len(t) > 2 and t[2] == "not-geometric":
                 R["sols"].append({"bad": "not-geometric", "states": [], "edges": {}, "dense": {}})
-                continue
+                return
             d = kv(t[2:])
             R["sols"].append({"approx": d["approx"] == "1", "diff": b2f(d["diff"]), "n": int(d["n"]), "start": int(d["start"]),
                               "gdist": b2f(d["gdist"]), "gsat": d["gsat"] == "1", "planner": d.get("planner"),
@@ -734,7 +799,6 @@ def parse_run(lines):
             R["done"] = True
         elif k == "bad-op":
             R["badop"] = ln
-    return R
 
 
 def run_problem(ck, hbin, p, timeout=300):
@@ -831,12 +895,12 @@ def longest_invalid_sampled(p, sol, dists):
     for j in range(len(st) - 1):
         m, inner = sol["dense"].get(j, (1, []))
         d = dists[j]
-        pts.append((s0, p.valid(st[j]), j))
+        pts.append((s0, p.user_valid(st[j]), j))
         for q, x in enumerate(inner):
-            pts.append((s0 + d * (q + 1) / float(m), p.valid(x), j))
+            pts.append((s0 + d * (q + 1) / float(m), p.user_valid(x), j))
         s0 += d
     if st:
-        pts.append((s0, p.valid(st[-1]), len(st) - 1))
+        pts.append((s0, p.user_valid(st[-1]), len(st) - 1))
     best, where, run0 = 0.0, None, None
     for s, v, j in pts:
         if not v:
@@ -887,7 +951,19 @@ def check_solution(p, R, sol, top, fails, obs):
     # (2) bounds
     for j, x in enumerate(st):
         if not p.in_bounds(x):
-            fails.append((pre + "bounds", "path state %d = %r is outside the space bounds" % (j, x)))
+            # is every out-of-bounds state of this path out ONLY on the side of (and no farther than) a goal state that
+            # is itself outside the bounds?  (known finding F310: an unfiltered direct sampleGoal; anything else alarms)
+            og = [g for g in p.all_goals() if not p.in_bounds(g)]
+            toward = bool(og) and p.kind == "rv"
+            for y in st:
+                if p.in_bounds(y):
+                    continue
+                if not any(all((p.lo[i] - EPS <= y[i] <= p.hi[i] + EPS) or
+                               (p.hi[i] < y[i] <= g[i] + 1e-9) or (g[i] - 1e-9 <= y[i] < p.lo[i]) for i in range(len(p.lo)))
+                           for g in og):
+                    toward = False
+            fails.append((pre + "bounds", "path state %d = %r is outside the space bounds" % (j, x),
+                          {"toward_outside_goal": toward}))
             break
     # (3) goal / approximate bookkeeping
     gd = p.goal_dist(st[-1])
@@ -946,7 +1022,7 @@ def check_solution(p, R, sol, top, fails, obs):
     # (5) strict form: vertices and every j/n point valid
     bad, badedge = None, None
     for j, x in enumerate(st):
-        if not p.valid(x):
+        if not p.user_valid(x):
             bad = "path state %d = %r is invalid" % (j, x)
             badedge = j - 1 if j > 0 else 0
             break
@@ -954,7 +1030,7 @@ def check_solution(p, R, sol, top, fails, obs):
         for j in range(len(st) - 1):
             n, d, inner = sol["edges"].get(j, (0, 0.0, []))
             for q, x in enumerate(inner):
-                if not p.valid(x):
+                if not p.user_valid(x):
                     bad = "subdivision point %d/%d of edge %d (%r -> %r) = %r is invalid: checkMotion fails on this pair" % (q + 1, n, j, st[j], st[j + 1], x)
                     badedge = j
                     break
@@ -1756,6 +1832,13 @@ def plan_quick(ck, names):
             jobs.append(adv.clone(planner=name, seed=r.below(1000), budget=budget,
                                   pollcap=pollcap_for(name, budget, which)))
         if name not in EXTRA:
+            rb = ck.rng.fork("bb:" + name)
+            for k in range(BLIND_RUNS.get(name, 3) + 1):
+                last = k == BLIND_RUNS.get(name, 3)         # the last one: with a goal state outside the bounds
+                bb = gen_boundsblind(rb, ["rv2", "rv2", "rv3", "se2"][k % 4] if not last else "rv2", outside_goal=last)
+                budget = rb.choice([300, 1000, 3000])
+                jobs.append(bb.clone(planner=name, seed=rb.below(100000), budget=budget, pollcap=pollcap_for(name, budget)))
+        if name not in EXTRA:
             rg = ck.rng.fork("mg:" + name)
             for k in range(1):
                 mg = gen_multigoal(rg)
@@ -1808,6 +1891,13 @@ def plan_thorough(ck, names):
             budget = rr.choice([1500, 5000, 10000])
             jobs.append(rs.clone(planner=name, seed=rr.below(100000), budget=budget, pollcap=pollcap_for(name, budget)))
         if name not in EXTRA and name not in MULTILEVEL:
+            rb = ck.rng.fork("bb:" + name)
+            for k in range(4 * BLIND_RUNS.get(name, 3) + 4):
+                last = k >= 4 * BLIND_RUNS.get(name, 3)
+                bb = gen_boundsblind(rb, ["rv2", "rv2", "rv3", "se2"][k % 4] if not last else "rv2", outside_goal=last)
+                budget = rb.choice([300, 1000, 3000, 8000])
+                jobs.append(bb.clone(planner=name, seed=rb.below(100000), budget=budget, pollcap=pollcap_for(name, budget)))
+        if name not in EXTRA and name not in MULTILEVEL:
             rg = ck.rng.fork("mg:" + name)
             for k in range(10):
                 mg = gen_multigoal(rg)
@@ -1837,6 +1927,7 @@ def lockstep_jobs(ck, n):
             env = mg
             ext = extent(env)
             adv = "multi-goal"
+        blind = 1 if (adv is None and i % 11 == 5) else 0
         iters = r.choice([0, 1, 7, 60, 300, 1500]) if rng != 0.003 * ext else r.choice([60, 300, 600])
         if adv == "goal-in-obstacle" and planner != "RRT":
             iters = min(iters, 60)      # nextGoal(ptc) sleeps 10 ms per waiting turn on an invalid goal
@@ -1846,7 +1937,7 @@ def lockstep_jobs(ck, n):
                               interm=(r.below(2) if planner != "LazyPRM" else None),
                               bias=(r.choice([None, 0.05, 0.3, 0.0, 1.0]) if planner == "RRT" else None),
                               costthr=(r.choice(["inf", "inf", "zero"]) if planner == "LazyPRM" else None),
-                              tag="lockstep" if adv != "multi-goal" else "lockstep:multi-goal"))
+                              blind=blind, tag="lockstep" if adv != "multi-goal" else "lockstep:multi-goal"))
     return jobs
 
 
